@@ -73,20 +73,22 @@ def job(spec):
     fil = FilReader(names)     # one reader object for the whole history of calls
     for call in spec["calls"]:
         op, gulp, start, nsamps = call["op"], call["gulp"], call["start"], call["nsamps"]
+        # 'dflt': the range runs to the end of the file and nsamps is LEFT TO ITS DEFAULT (the spec still sees the explicit length)
+        rk = {"gulp": gulp, "start": start, "quiet": True} if call.get("dflt") else {"gulp": gulp, "start": start, "nsamps": nsamps, "quiet": True}
         e = {"op": op, "gulp": gulp, "start": start, "nsamps": nsamps, "q": Q, "ch": call.get("ch", 0),
              "del": [0] * c, "vals": [], "valsq": [], "chans": [], "full": False, "hdr_nsamples": -1}
         if op == "collapse":
-            oc, r = _call(lambda: fil.collapse(gulp=gulp, start=start, nsamps=nsamps, quiet=True))
+            oc, r = _call(lambda: fil.collapse(**rk))
             if r is not None:
                 e["vals"] = _ints(r.data)
                 e["hdr_nsamples"] = int(r.header.nsamples)
         elif op == "chan":
-            oc, r = _call(lambda: fil.read_chan(call["ch"], gulp=gulp, start=start, nsamps=nsamps, quiet=True))
+            oc, r = _call(lambda: fil.read_chan(call["ch"], **rk))
             if r is not None:
                 e["vals"] = _ints(r.data)
                 e["hdr_nsamples"] = int(r.header.nsamples)
         elif op == "bandpass":
-            oc, r = _call(lambda: fil.bandpass(gulp=gulp, start=start, nsamps=nsamps, quiet=True))
+            oc, r = _call(lambda: fil.bandpass(**rk))
             if r is not None:
                 e["valsq"] = [_fx(x, Q) for x in r.data]
         elif op == "dedisp":
@@ -94,14 +96,14 @@ def job(spec):
             dels = [int(x) for x in np.atleast_1d(fil.header.get_dmdelays(dm))]
             e["del"] = dels
             e["dm_milli"] = int(round(dm * 1000))
-            oc, r = _call(lambda: fil.dedisperse(dm, gulp=gulp, start=start, nsamps=nsamps, quiet=True))
+            oc, r = _call(lambda: fil.dedisperse(dm, **rk))
             if r is not None:
                 e["vals"] = _ints(r.data)
                 e["hdr_nsamples"] = int(r.header.nsamples)
         else:  # stats / stats_basic
             full = op == "stats"
             f = fil.compute_stats if full else fil.compute_stats_basic
-            oc, _ = _call(lambda: f(gulp=gulp, start=start, nsamps=nsamps, quiet=True))
+            oc, _ = _call(lambda: f(**rk))
             e["op"] = "stats"
             e["mode"] = "full" if full else "basic"
             e["full"] = bool(full and nsamps <= 12 and top <= 4)
@@ -151,6 +153,7 @@ def run(v) -> None:
     def calls_for(n, c, gulps, ranges, ops):
         out = []
         for (start, nsamps) in ranges:
+            dflt = (start + nsamps == n)
             for gulp in gulps:
                 # both orders of the two statistics passes over the SAME range on the same reader (basic then full, full then basic)
                 for op in (ops if gulp % 2 else [o for o in ops if o not in ("stats", "stats_basic")] + ["stats_basic", "stats"]):
@@ -158,11 +161,11 @@ def run(v) -> None:
                         continue   # one channel: no dispersion across channels (get_dmdelays returns a 0-d array)
                     if op == "dedisp":
                         for dm in dms[:3] if quick else dms:
-                            out.append({"op": op, "gulp": gulp, "start": start, "nsamps": nsamps, "dm": dm})
+                            out.append({"op": op, "gulp": gulp, "start": start, "nsamps": nsamps, "dm": dm, "dflt": dflt and gulp % 2 == 0})
                     elif op == "chan":
-                        out.append({"op": op, "gulp": gulp, "start": start, "nsamps": nsamps, "ch": (gulp + start) % c})
+                        out.append({"op": op, "gulp": gulp, "start": start, "nsamps": nsamps, "ch": (gulp + start) % c, "dflt": dflt and gulp % 2 == 0})
                     else:
-                        out.append({"op": op, "gulp": gulp, "start": start, "nsamps": nsamps})
+                        out.append({"op": op, "gulp": gulp, "start": start, "nsamps": nsamps, "dflt": dflt and gulp % 2 == 0})
         return out
 
     ops = ["collapse", "bandpass", "chan", "dedisp", "stats", "stats_basic"]
